@@ -38,9 +38,9 @@ theorem cleanup_sub (cap n i : Nat) (ring : Nat → Option Elem) (len : Int) (p 
       · exact ih _ _ _
     · exact ih _ _ _
 
-/-- … and only slots holding an index below the height it was run up to. -/
+/-- … and only slots holding an index at or below the height it was run up to. -/
 theorem cleanup_keeps (cap n i : Nat) (ring : Nat → Option Elem) (len : Int) (p : Nat) (x : Elem)
-    (h : ring p = some x) (hx : i + n ≤ x.idx) : (cleanup cap n i ring len).1 p = some x := by
+    (h : ring p = some x) (hx : i + n < x.idx) : (cleanup cap n i ring len).1 p = some x := by
   induction n generalizing i ring len with
   | zero => simpa [cleanup] using h
   | succ n ih =>
@@ -56,27 +56,6 @@ theorem cleanup_keeps (cap n i : Nat) (ring : Nat → Option Elem) (len : Int) (
         · omega
       · exact ih _ _ _ h (by omega)
     · exact ih _ _ _ h (by omega)
-
-/-- The clean-up loop of `Run` is dead code for every capacity ≥ 2 (its condition compares the index in
-slot `pos(i+1)` with `i`). -/
-theorem cleanup_dead (cap n i : Nat) (ring : Nat → Option Elem) (len : Int) (hcap : 2 ≤ cap)
-    (hslot : ∀ p x, ring p = some x → posOf cap x.idx = p) :
-    cleanup cap n i ring len = (ring, len) := by
-  induction n generalizing i with
-  | zero => rfl
-  | succ n ih =>
-    simp only [cleanup]
-    split
-    · rename_i y hy
-      split
-      · rename_i hyi
-        exfalso
-        have := hslot _ _ hy
-        simp only [posOf, hyi] at this
-        have h2 := mod_eq_lt_add this.symm (by omega)
-        omega
-      · exact ih _
-    · exact ih _
 
 /-- Invariant of every reachable state (all interleavings). -/
 structure Inv (s : State) : Prop where
